@@ -478,6 +478,12 @@ fn exec_c20(plan: &Value, ctx: &mut Ctx) {
         if anonymous {
             ids.push("ANONYMOUS".to_string());
         }
+        // two X.509 users (certificates of the fixture identities c and a), a subset allowed here
+        spec.x509_users = vec![("x0".to_string(), "xavier".to_string(), "c".to_string()), ("x1".to_string(), "xenia".to_string(), "a".to_string())];
+        let allowed_x509: Vec<usize> = plan["allowed_x509"].as_array().map(|a| a.iter().map(|x| x.as_u64().unwrap_or(0) as usize % 2).collect()).unwrap_or_default();
+        for i in allowed_x509.iter() {
+            ids.push(format!("x{}", i));
+        }
         spec.endpoint_tokens = Some(vec![ids]);
         spec.endpoint_password_policy = Some(vec![pw_policy_name.clone()]);
         let pw_policy = match &pw_policy_name {
@@ -511,6 +517,7 @@ fn exec_c20(plan: &Value, ctx: &mut Ctx) {
             let nonce_now: Vec<u8> = c.server_nonce.value.clone().unwrap_or_default();
             // (token object, model verdict: may this be accepted?, description)
             let mut replay_sig: Option<SignatureData> = None;
+            let mut x509_sig = SignatureData::null();
             let (token, acceptable, desc): (ExtensionObject, bool, String) = match kind {
                 "anon" => {
                     let pid = if s["right_policy_id"].as_bool().unwrap_or(true) { "anonymous" } else { "anon2" };
@@ -521,8 +528,14 @@ fn exec_c20(plan: &Value, ctx: &mut Ctx) {
                     )
                 }
                 "user" | "replay" => {
-                    let ui = (s["user"].as_u64().unwrap_or(0) as usize) % 4; // 3 = unknown user
-                    let (uname, upass): (String, Option<String>) = if ui < 3 { (USERS[ui].1.to_string(), USERS[ui].2.map(|p| p.to_string())) } else { ("mallory".to_string(), Some("x".to_string())) };
+                    let ui = (s["user"].as_u64().unwrap_or(0) as usize) % 5; // 3 = unknown user, 4 = the name of an X.509 user with an empty password
+                    let (uname, upass): (String, Option<String>) = if ui < 3 {
+                        (USERS[ui].1.to_string(), USERS[ui].2.map(|p| p.to_string()))
+                    } else if ui == 4 {
+                        ("xavier".to_string(), Some(String::new()))
+                    } else {
+                        ("mallory".to_string(), Some("x".to_string()))
+                    };
                     let right_pw = s["right_password"].as_bool().unwrap_or(true);
                     let pass = if right_pw { upass.clone().unwrap_or_default() } else { format!("{}x", upass.clone().unwrap_or_default()) };
                     let right_pid = s["right_policy_id"].as_bool().unwrap_or(true);
@@ -620,16 +633,58 @@ fn exec_c20(plan: &Value, ctx: &mut Ctx) {
                         )
                     }
                 }
+                "x509" => {
+                    // which certificate: 0 = user x0 (identity c), 1 = user x1 (identity a), 2 = nobody's (the server's own)
+                    let which = (s["which"].as_u64().unwrap_or(0) as usize) % 3;
+                    let ident = crate::wire::identity(2048, ["c", "a", "b"][which]);
+                    let sign = s["sign"].as_str().unwrap_or("right");
+                    let right_pid = s["right_policy_id"].as_bool().unwrap_or(true);
+                    let signer = if sign == "wrong_key" { crate::wire::identity(2048, ["a", "c", "c"][which]) } else { ident.clone() };
+                    let nonce_for_sig = if sign == "wrong_nonce" { ByteString::from(vec![0x33u8; nonce_now.len().max(8)]) } else { ByteString::from(nonce_now.clone()) };
+                    x509_sig = if sign == "none" {
+                        SignatureData::null()
+                    } else {
+                        // the server verifies X.509 user tokens with the policy it advertises for them
+                        opcua::crypto::create_signature_data(&signer.key(), SecurityPolicy::Basic128Rsa15, &server_cert.as_byte_string(), &nonce_for_sig).unwrap_or_else(|_| SignatureData::null())
+                    };
+                    ctx.fault(match sign {
+                        "right" => "x509_token",
+                        _ => "x509_token_bad_signature",
+                    });
+                    let tok = X509IdentityToken { policy_id: UAString::from(if right_pid { "x509" } else { "x509_other" }), certificate_data: ident.cert.as_byte_string() };
+                    let configured = which < 2 && allowed_x509.contains(&which);
+                    // a wrong-nonce signature is only wrong when there is a nonce
+                    let sig_ok = sign == "right" || (sign == "wrong_nonce" && nonce_now.is_empty());
+                    (
+                        ExtensionObject::from_encodable(ObjectId::X509IdentityToken_Encoding_DefaultBinary, &tok),
+                        configured && sig_ok && right_pid,
+                        format!("x509(cert={},sign={},right_pid={})", which, sign, right_pid),
+                    )
+                }
                 // Part 4: a null / empty user identity token means anonymous
                 _ => (ExtensionObject::null(), anonymous, "null-token".to_string()),
             };
+            let nonce_before = c.server_nonce.clone();
             let r = match replay_sig.take() {
                 Some(sig) => c.activate_session_signed(token, sig).await,
-                None => c.activate_session(token).await,
+                None => {
+                    let cs = c.client_signature();
+                    c.activate_session_full(token, cs, x509_sig).await
+                }
             };
             let good = matches!(r, Recv::Msg(_, SupportedMessage::ActivateSessionResponse(_)));
+            // the nonce a token is bound to has to change with every successful activation,
+            // otherwise the activation that was just accepted can be replayed as it is
+            if good && policy != SecurityPolicy::None && !nonce_before.is_null() && c.server_nonce == nonce_before {
+                ctx.violate("C20", "replayed-token-accepted", "nonce-not-rotated", format!("ActivateSession succeeded with {} and returned the same server nonce as before: a token made for the earlier nonce stays valid", desc));
+            }
             if good {
                 ctx.probe("activation_succeeded");
+                if kind == "x509" {
+                    ctx.probe("x509_activation_succeeded");
+                }
+            } else if kind == "x509" && acceptable {
+                ctx.probe("x509_activation_refused_although_acceptable");
             }
             if good && !acceptable {
                 let clause = if kind == "replay" { "replayed-token-accepted" } else { "unconfigured-activation-accepted" };
@@ -659,13 +714,21 @@ fn gen_c20(rng: &mut Rng, tier: Tier) -> Value {
     for _ in 0..len {
         match rng.below(10) {
             0..=1 => steps.push(json!({"kind": "anon", "right_policy_id": rng.chance(0.8)})),
-            2..=6 => steps.push(json!({"kind": "user", "user": rng.below(4), "right_password": rng.chance(0.7), "right_policy_id": rng.chance(0.9), "plain": rng.chance(0.1),
+            2..=6 => steps.push(json!({"kind": "user", "user": rng.below(5), "right_password": rng.chance(0.7), "right_policy_id": rng.chance(0.9), "plain": rng.chance(0.1),
                                       "mangle": *rng.pick(&["none", "none", "none", "none", "truncate", "garbage", "short", "wrong_alg", "wrong_nonce", "short_plaintext"])})),
-            7..=8 => steps.push(json!({"kind": "replay", "which": rng.below(4), "whole_request": rng.chance(0.5)})),
+            7 => steps.push(json!({"kind": "replay", "which": rng.below(4), "whole_request": rng.chance(0.5)})),
+            8 => {
+                if rng.chance(0.5) {
+                    steps.push(json!({"kind": "replay", "which": rng.below(4), "whole_request": rng.chance(0.5)}));
+                } else {
+                    steps.push(json!({"kind": "x509", "which": rng.below(3), "sign": *rng.pick(&["right", "right", "right", "wrong_key", "wrong_nonce", "none"]), "right_policy_id": rng.chance(0.9)}));
+                }
+            }
             _ => steps.push(json!({"kind": "null"})),
         }
     }
-    json!({"policy": policy, "mode": mode, "password_policy": password_policy, "anonymous": rng.chance(0.5), "allowed_users": allowed, "tseed": rng.next_u64() >> 12, "steps": steps})
+    let allowed_x509: Vec<u64> = (0..2u64).filter(|_| rng.chance(0.5)).collect();
+    json!({"policy": policy, "mode": mode, "password_policy": password_policy, "anonymous": rng.chance(0.5), "allowed_users": allowed, "allowed_x509": allowed_x509, "tseed": rng.next_u64() >> 12, "steps": steps})
 }
 
 impl Scenario for Sess {
@@ -693,7 +756,7 @@ impl Scenario for Sess {
                 real: vec!["SessionService::activate_session", "ServerState::authenticate_endpoint and token authenticators", "crypto::user_identity (encrypt on the client side, decrypt on the server side)", "secure channel (None and secured policies, RSA 2048)", "server transport tasks"],
                 stubbed: vec!["TCP socket"],
                 assumptions: vec!["X.509 user tokens are not generated (the configuration universe has user-name and anonymous tokens)"],
-                fault_kinds: vec!["malformed_ciphertext", "token_for_other_nonce", "replayed_password_token"],
+                fault_kinds: vec!["malformed_ciphertext", "token_for_other_nonce", "replayed_password_token", "x509_token", "x509_token_bad_signature"],
             }
         }
     }
